@@ -172,6 +172,8 @@ def gen_model(r, size=None):
                    "urgent": False, "committed": False}
             if env.clocks and r.random() < 0.4:
                 loc["inv"] = "%s <= %s" % (r.choice(env.clocks), int_expr(r, env, 2))
+                if r.random() < 0.3:
+                    loc["exprate"] = str(r.randint(1, 5))        # a location may carry both labels (the invariant first)
             elif r.random() < 0.15:
                 loc["exprate"] = str(r.randint(1, 5))
             c = r.random()
